@@ -259,3 +259,132 @@ Example text_key_witness_premises :
   stmt_ok wd_stmt = true /\ NoDup (map fst (somes wd_slots)) /\
   names_ok false wd_stmt = false /\ names_ok true wd_stmt = true.
 Proof. exact wd_premises. Qed.
+
+(* ------------------------------------------------------------------ statement level: ORDER BY / LIMIT / GROUP BY above the plans with a context *)
+(* Model/CachePlans.v: Optimizer.buildFinalPlan's stacking (Model/SelectPlans.v [shape]) of
+   FinalOrderPlan (Model/Order.v), FinalLimitPlan (Model/LimitLazy.v: the child is PULLED) and
+   AggregatePlan (Model/Aggregate.v) on the plans that carry an ExecuteCtx: Model/Cache.v's
+   ProjectionPlan.Next, Model/CacheVec.v's ProjectionPlan.Batch, and the twin of what
+   AggregatePlan.prepare / prepareBatch do with the context (row mode: child.Next(nil), then per
+   pair ctx.Clear(), GROUP BY expressions, key fields of a NEW group, aggregate arguments except
+   count's, all by Execute with the context; batch mode: the scan's Batch with the context,
+   batchGetAggrKeys by ExecuteBatch on the context the scan left, then the per-pair loop).
+   [cq]: the checked statement; [cq_ok]: Cache.stmt_ok for select list and WHERE, and every field
+   name used in a GROUP BY expression, a non-aggregate field or an aggregate argument carries the
+   definition the select list gives it.  [shape]: the plan buildFinalPlan returns ([cq_shape]);
+   the theorems hold for every shape.  Aggregate select fields are Spec/Group.v [aexpr]s (numbers,
+   aggregate calls, + - * /): a field that mixes an aggregate call with a field name or a
+   pair-dependent term (`sum(n) + n`) has no twin, and on the real code the cache IS visible
+   there (AggregatePlan.next/batch: Expr.Execute(NewKVP(nil, nil), ctx) finds the last pair's
+   value in the context); see props/C05.json. *)
+From KV Require Import Model.LimitLazy Model.SelectPlans Model.CachePlans Proofs.CachePlansProofs.
+From KV Require Model.Order Model.Aggregate Spec.Group.
+
+(* ProjectionPlan [+ FinalOrderPlan, incl. the dropped `order by key asc`] [+ FinalLimitPlan]
+   drained by Next until nil, over EVERY sequence of pairs the access path yields: rows and
+   errors with the cache on = rows and errors with the cache off.  Under a limit node the child
+   is pulled lazily; it is pulled equally often (Proofs/CachePlansProofs.v, Part A). *)
+Theorem cache_invisible_statement_row :
+  forall (fo : fops) re (ag : aggops fo) pi pf (q : cq fo) (sh : shape) (ps : list kvpair),
+  stmt_ok (cq_sel fo q) = true -> agg_free sh = true ->
+  stmt_shape_row_c fo re ag pi pf true q sh ps = stmt_shape_row_c fo re ag pi pf false q sh ps.
+Proof. exact cache_invisible_statement_row_lemma. Qed.
+Print Assumptions cache_invisible_statement_row.
+
+(* ... drained by Batch until the empty batch, for EVERY batch size and EVERY slot stream with
+   pairwise different keys *)
+Theorem cache_invisible_statement_batch :
+  forall (fo : fops) re keyfix (ag : aggops fo) pi pf (q : cq fo) (sh : shape) (B : nat)
+         (sl : list (option kvpair)),
+  stmt_ok (cq_sel fo q) = true -> names_ok keyfix (cq_sel fo q) = true -> agg_free sh = true ->
+  keys_nodup sl ->
+  stmt_shape_batch_c fo re keyfix ag pi pf true B q sh sl = stmt_shape_batch_c fo re keyfix ag pi pf false B q sh sl.
+Proof. exact cache_invisible_statement_batch_lemma. Qed.
+Print Assumptions cache_invisible_statement_batch.
+
+(* every shape, the AggregatePlan (GROUP BY / aggregates, pushed-down LIMIT) [+ FinalOrderPlan]
+   [+ FinalLimitPlan] included *)
+Theorem cache_invisible_aggregate_row :
+  forall (fo : fops) re (ag : aggops fo) pi pf (q : cq fo) (sh : shape) (ps : list kvpair),
+  cq_ok fo q = true ->
+  stmt_shape_row_c fo re ag pi pf true q sh ps = stmt_shape_row_c fo re ag pi pf false q sh ps.
+Proof. exact cache_invisible_aggregate_row_lemma. Qed.
+Print Assumptions cache_invisible_aggregate_row.
+
+Theorem cache_invisible_aggregate_batch :
+  forall (fo : fops) re keyfix (ag : aggops fo) pi pf (q : cq fo) (sh : shape) (B : nat)
+         (sl : list (option kvpair)),
+  cq_ok fo q = true -> names_ok keyfix (cq_sel fo q) = true -> keys_nodup sl ->
+  stmt_shape_batch_c fo re keyfix ag pi pf true B q sh sl = stmt_shape_batch_c fo re keyfix ag pi pf false B q sh sl.
+Proof. exact cache_invisible_aggregate_batch_lemma. Qed.
+Print Assumptions cache_invisible_aggregate_batch.
+
+(* the per-pair observation: whatever the cache setting and whatever groups exist already, the
+   loop body of AggregatePlan.prepare hands Model/Aggregate.v exactly the values the cache-free
+   evaluator computes on the pair (C03's c_obs_row): a name in a GROUP BY expression, a key field
+   or an aggregate argument denotes the value of its definition on the same pair *)
+Theorem aggregate_observation_exact :
+  forall (fo : fops) re (ag : aggops fo) on (q : cq fo), cq_ok fo q = true ->
+  forall p seen kv,
+  obs_row_c fo re ag on q p seen kv =
+  (do o <- c_obs_row fo re (cq_group fo q) (cq_keys fo q) (cq_args fo q) kv;
+   Ok (o, seen_step fo ag p seen (Group.p_g o))).
+Proof. exact obs_row_c_spec. Qed.
+Print Assumptions aggregate_observation_exact.
+
+(* AggregatePlan(scan) with the context, cache on or off, IS C03's cache-free composition
+   (Model/SelectPlans.v agg_rows / agg_bats) over the same expressions *)
+Theorem aggregate_row_is_cache_free :
+  forall (fo : fops) re (ag : aggops fo) on (q : cq fo) p (ps : list kvpair), cq_ok fo q = true ->
+  arows_c fo re ag on q p ps =
+  agg_rows kvpair (sel_frow fo re (s_where (cq_sel fo q)))
+    (F fo) (fadd fo) (fsub fo) (fmul fo) (fdiv fo) (fltb fo) (a_is0 fo ag) (f_of_Z fo) (a_to_Z fo ag) (f_fmt fo)
+    (a_bits fo ag) (a_json_f fo ag) (a_parse fo ag) (a_json_s fo ag)
+    (c_obs_row fo re (cq_group fo q) (cq_keys fo q) (cq_args fo q)) (aconv_row fo (a_fbits fo ag))
+    p (map Some ps).
+Proof. exact arows_c_is_agg_rows. Qed.
+Print Assumptions aggregate_row_is_cache_free.
+
+Theorem aggregate_batch_is_cache_free :
+  forall (fo : fops) re keyfix (ag : aggops fo) on (q : cq fo) B p (sl : list (option kvpair)),
+  cq_ok fo q = true -> names_ok keyfix (cq_sel fo q) = true -> keys_nodup sl ->
+  abats_c fo re keyfix ag on q B p sl =
+  agg_bats kvpair (filter_batch fo re true (s_where (cq_sel fo q)))
+    (F fo) (fadd fo) (fsub fo) (fmul fo) (fdiv fo) (fltb fo) (a_is0 fo ag) (f_of_Z fo) (a_to_Z fo ag) (f_fmt fo)
+    (a_bits fo ag) (a_json_f fo ag) (a_parse fo ag) (a_json_s fo ag)
+    (c_obs_batch fo re (cq_group fo q) (cq_keys fo q) (cq_args fo q)) (aconv_row fo (a_fbits fo ag))
+    B p sl.
+Proof. exact abats_c_is_agg_bats. Qed.
+Print Assumptions aggregate_batch_is_cache_free.
+
+(* non-vacuity.  select KEY, int(value) as n where n > 2 order by n desc limit 1, 1 over
+   k0=1 k1=5 k2=2 k3=7: FinalLimitPlan(FinalOrderPlan(ProjectionPlan)), the limit skips one of the
+   two sorted rows and returns the other, B = 1, 2, 3 *)
+Example statement_premise_satisfiable : forall (fo : fops) keyfix,
+  stmt_ok (cq_sel fo (wq_order fo)) = true /\ names_ok keyfix (cq_sel fo (wq_order fo)) = true /\
+  cq_shape fo (wq_order fo) =
+    SLimit 1 1 (SOrder [Order.OrderField "n" (ERef 60 "n" w_int_value) true] SProj) /\
+  agg_free (cq_shape fo (wq_order fo)) = true /\ keys_nodup (map Some w_store).
+Proof. exact wq_order_premise. Qed.
+
+Example statement_rows_nonvacuous : forall (fo : fops) re (ag : aggops fo) pi pf keyfix on B,
+  B = 1 \/ B = 2 \/ B = 3 ->
+  stmt_row_c fo re ag pi pf on (wq_order fo) w_store = Ok [[Order.VBytes "k1"; Order.VInt 5%Z]] /\
+  stmt_batch_c fo re keyfix ag pi pf on B (wq_order fo) (map Some w_store) = Ok [[Order.VBytes "k1"; Order.VInt 5%Z]].
+Proof. exact wq_order_rows. Qed.
+
+(* select int(value) / 4 as g, count(1) as c, sum(g) as s where g >= 1 group by g over
+   k0=5 k1=9 k2=6 k3=1: the name g in WHERE, in GROUP BY and in sum's argument; one pair rejected,
+   two groups *)
+Example aggregate_premise_satisfiable : forall (fo : fops) keyfix,
+  cq_ok fo (wa_q fo) = true /\ names_ok keyfix (cq_sel fo (wa_q fo)) = true /\
+  cq_shape fo (wa_q fo) = SAgg 0 None /\ keys_nodup (map Some wa_store).
+Proof. exact wa_premise. Qed.
+
+Example aggregate_rows_nonvacuous : forall (fo : fops) re (ag : aggops fo) pi pf keyfix on B,
+  B = 1 \/ B = 2 \/ B = 3 ->
+  stmt_row_c fo re ag pi pf on (wa_q fo) wa_store =
+    Ok [[Order.VBytes "1"; Order.VInt 2%Z; Order.VInt 2%Z]; [Order.VBytes "2"; Order.VInt 1%Z; Order.VInt 2%Z]] /\
+  stmt_batch_c fo re keyfix ag pi pf on B (wa_q fo) (map Some wa_store) =
+    Ok [[Order.VBytes "1"; Order.VInt 2%Z; Order.VInt 2%Z]; [Order.VBytes "2"; Order.VInt 1%Z; Order.VInt 2%Z]].
+Proof. exact wa_rows. Qed.
